@@ -493,7 +493,7 @@ def r11r_rules(repo, sink):
     f = repo.resolve(c, "connect", "method")
     start = Sym("t0")
 
-    def build(in_rules=None, out_rules=None, ins=None, outs=None, pull=()):
+    def build(in_rules=None, out_rules=None, ins=None, outs=None, pull=(), cache=True):
         it = _CHR(repo)
         it.order.name(start, "t0", 0)
         inputs, outputs = {}, {}
@@ -514,7 +514,7 @@ def r11r_rules(repo, sink):
         me = Obj(cls=c, label="helper")
         me.fields["logger"] = Logger(label="logger")
         init = repo.resolve(c, "__init__")
-        it.run(init, ["lg", inputs, outputs], {"pull_data": list(pull), "in_info_rules": in_rules, "out_info_rules": out_rules}, self_obj=me)
+        it.run(init, ["lg", inputs, outputs], {"pull_data": list(pull), "in_info_rules": in_rules, "out_info_rules": out_rules, "cache": cache}, self_obj=me)
         return it, me, inputs, outputs
 
     # 1) output info derived from an input that exchanges late, then overridden by a value
@@ -579,3 +579,26 @@ def r11r_rules(repo, sink):
     except Raised as r:
         why = f"raises {r.name} ({r.exc!r})"
     sink.check(why is None, "R11", "rules:in-from-output", f, ok="input request derived from the output's exchanged info, exchanged once", bad=why or "")
+    # 4) an input whose info comes from value rules (always derivable) and whose source answers late: the exchange is attempted in
+    # EVERY call while it is outstanding - with and without caching (a helper that tries only every second call reports no progress
+    # although its peer is ready, and the composition ends in a false circular-coupling error)
+    for cache in (True, False):
+        rules = {"late": [_rule(repo, "FromValue", "grid", Sym("G")), _rule(repo, "FromValue", "time", start)]}
+        it, me, inputs, outputs = build(in_rules=rules, ins={"late": False}, cache=cache)
+        inputs["late"].fields["_scripts"] = {"exchange_info": [FAIL, FAIL, OK]}
+        why = None
+        try:
+            tries = []
+            for k in range(1, 5):
+                it.log, it.attempts = [], []
+                st = it.run(f, [start], {}, self_obj=me)
+                tries.append(len([a for a in it.attempts if a[1] == "exchange_info"]))
+                if isinstance(st, Sym) and st.args[1] == "CONNECTED":
+                    break
+            if tries[:3] != [1, 1, 1]:
+                why = (f"exchange attempts per call: {tries}; the source answers at the third attempt, which must be made in the third call "
+                       "(the rule-derived info is regenerated only every second call)")
+        except Raised as r:
+            why = f"raises {r.name} ({r.exc!r})"
+        sink.check(why is None, "R11", f"rules:attempt-every-call:cache={cache}", f,
+                   ok="an outstanding exchange with rule-derived info is attempted in every call", bad=why or "")
